@@ -319,3 +319,22 @@ func (c *Ctx) stringHelperCut(call *ssa.Call, k string, s Subst, acceptFor func(
 	}
 	return any
 }
+
+// HelperSuccessResults is HelperResults restricted to the helper's success returns (those whose error result is the nil
+// constant), for helpers that have an error result; helpers without one yield all their returns.
+func HelperSuccessResults(v ssa.Value) ([]ResVal, bool) {
+	rvs, ok := HelperResults(v)
+	if !ok {
+		return nil, false
+	}
+	var out []ResVal
+	for _, rv := range rvs {
+		f := rv.Ret.Parent()
+		k := errResultIndex(f)
+		if k >= 0 && !isNilConst(unwrapErr(an.Result(rv.Ret, k))) {
+			continue
+		}
+		out = append(out, rv)
+	}
+	return out, true
+}
